@@ -223,6 +223,9 @@ def run_sql_suite(seed, tier, tag, n_quick=220, n_thorough=2500):
     n = n_thorough if big else n_quick
     cases = gen_cases(seed * 7919 + 11, n, [ENVELOPE, ENVELOPE, ENVELOPE_INNER_ON])
     cases += gen_cases(seed * 104729 + 5, n // 3, [ENVELOPE], pk=True)
+    # multi-chunk inputs for the operators that keep state across chunks (semi / anti joins, merge join, sort
+    # aggregation, top-n): the medium family of C11
+    cases += c11_medium_cases(seed * 89 + 3, 64 if big else 16, kinds=(3, 3, 0))
     runs, labels = to_run_cases(cases)
     outs = run_sharded("sql", runs, tag=tag, timeout=3300, case_timeout=30)
     collect(cases, runs, labels, outs)
@@ -889,7 +892,7 @@ def c11_cases(seed, n):
     return out
 
 
-def c11_medium_cases(seed, n):
+def c11_medium_cases(seed, n, kinds=(0, 1, 2, 3)):
     """Inputs of many chunks: 60-150 rows per table with runs of duplicate keys, stored with 64-byte blocks
     (a scan batch ends every ~12 rows) and in three INSERTs, so that groups of equal keys straddle the chunk
     boundaries the merge join / sort aggregation / top-n see."""
@@ -922,8 +925,22 @@ def c11_medium_cases(seed, n):
                 ins.append(f"insert into {t} values " + ", ".join("(" + ", ".join(G.lit(v) for v in r) + ")" for r in part))
         A = lambda al, c, ty=G.INT: ("col", al, c, ty)
         base = dict(where=None, grp=[], hav=None, agg=False, dist=False, ord=[], lim=-1, off=0)
-        kind = i % 3
-        if kind == 0:
+        kind = kinds[i % len(kinds)]
+        if kind == 3:
+            # semi / anti join: hash (equality correlation) or nested loop (inequality correlation), the inner
+            # side arrives in three chunks
+            outer_t, inner_t = ("t1", "t2") if rnd.random() < 0.5 else ("t2", "t1")
+            cop = rnd.choice(["=", "=", "<", ">"])
+            corr = ("bin", cop, A("x2", "a"), A("x1", "a"), G.BOOL)
+            if rnd.random() < 0.4:
+                corr = ("bin", "and", corr, ("bin", rnd.choice([">", "<=", "="]), A("x2", "b"), ("ci", rnd.choice([0, 1, 2])), G.BOOL), G.BOOL)
+            sub = dict(base, sel=[(("ci", 1), "s1")], frm=("t", inner_t, "x2"), where=corr)
+            pred = ("exists", sub, rnd.random() < 0.5, G.BOOL)
+            if rnd.random() < 0.3:
+                pred = ("bin", "and", pred, ("bin", ">=", A("x1", "b"), ("ci", 1), G.BOOL), G.BOOL)
+            sel = [(A("x1", "a"), "c1"), (A("x1", "b"), "c2"), (A("x1", "c", G.STR), "c3")]
+            q = dict(base, sel=sel, frm=("t", outer_t, "x1"), where=pred)
+        elif kind == 0:
             l, r = ("t1", "t2") if rnd.random() < 0.5 else ("t2", "t1")
             jt = rnd.choice(["inner", "inner", "left"])
             on = ("bin", "=", A("x1", "a"), A("x2", "a"), G.BOOL)
@@ -993,6 +1010,10 @@ def check_c11(args):
                         f"{good or 'the semantics'} give {c['expected'][:6]}")
         for l, o in c["obs"].items():
             if "err" in o and not l.endswith(".off") and not str(o["err"]).startswith("bind error"):
+                if has_subquery(c["q"]) and v.is_known("Q8") and l != "mem.on" and \
+                        re.search("Apply is not supported|not found from input|Unavailable", str(o["err"])):
+                    v.note_known("Q8")      # statistics-dependent subquery plans (recorded finding)
+                    continue
                 v.violation(dict(info, config=l, error=o), f"[{l}] {c['sql']} failed: {o['err'][:120]}")
     # vacuity: the implementations the property is about must all have been used
     need = ["mem.on:hashjoin", "disk.on:mergejoin", "mem.off:join", "mem.on:hashagg", "disk.on:sortagg", "mem.on:topn", "mem.off:order"]
